@@ -201,12 +201,15 @@ func (h *Hub) CancelPairingWithSKI(ski string) {
 
 	h.removeConnectionAttemptCounter(ski)
 
-	if existingC := h.connectionForSKI(ski); existingC != nil {
-		existingC.AbortPendingHandshake()
-	}
-
 	service := h.ServiceForSKI(ski)
-	service.ConnectionStateDetail().SetState(api.ConnectionStateNone)
+
+	if existingC := h.connectionForSKI(ski); existingC != nil {
+		// the state of an existing connection is reported by the connection itself: an aborted
+		// handshake reports its end, a connection that is not pending keeps its state
+		existingC.AbortPendingHandshake()
+	} else {
+		service.ConnectionStateDetail().SetState(api.ConnectionStateNone)
+	}
 	service.SetTrusted(false)
 
 	h.notifyPairingDetailUpdate(ski)
